@@ -2,7 +2,7 @@
 From Coq Require Import List NArith Bool String.
 Import ListNotations.
 From Indi Require Import Base.Sx Msg.Registry Msg.Equality Msg.Model Msg.Codec Driver.Model Driver.Props
-  Generated.RegistryData Generated.RegistryOk Driver.EmitWf.
+  Generated.RegistryData Generated.RegistryOk Driver.EmitWf Driver.EmitWfSwitch.
 
 (* For EVERY device state (any groups / properties / elements / values / flags), with
    property names unique: a request without a property name elicits, in order, exactly
@@ -63,3 +63,16 @@ Theorem the_answer_for_a_disabled_property_reads_back : forall d g v,
   msg_from_xml live_registry (msg_to_xml (def_msg d g v)) = Some (def_msg d g v).
 Proof. intros d g v H. split; [exact (del_msg_wf d g v H) | exact (del_msg_reads_back d g v H)]. Qed.
 Print Assumptions the_answer_for_a_disabled_property_reads_back.
+
+(* the definition of an enabled SWITCH property is constructible and the library's parser reads it
+   back (up to: empty text = absent text), for every device, whatever names, labels, group and
+   timeout are, provided the property is a switch property as declared: its elements hold switch
+   values and its state, permission and rule are words of the protocol (switch_vec_ok;
+   Driver/EmitWfSwitch.v gives a concrete property that meets it).  PARTIAL for the other kinds:
+   texts need the value to survive strip(), numbers the renderer's output to pass the number check. *)
+Theorem the_definition_of_a_switch_property_reads_back : forall d g v,
+  vec_on g v = true -> switch_vec_ok v ->
+  wfb live_registry (def_msg d g v) = true /\
+  msg_from_xml live_registry (msg_to_xml (def_msg d g v)) = Some (norm_msg (def_msg d g v)).
+Proof. intros d g v H K. split; [exact (switch_def_wf d g v H K) | exact (switch_def_reads_back d g v H K)]. Qed.
+Print Assumptions the_definition_of_a_switch_property_reads_back.
